@@ -1,7 +1,9 @@
 #!/usr/bin/env python3
 """Applies each seeded change under /verif/seeded/ to /repo (git apply), runs the quick check(s) of its property (or the
 ones given), records whether a VIOLATION was reported, and undoes the change (git checkout). Never commits anything.
-usage: run_seeded.py [seeded-dir-name ...] [--checks C05,C06]"""
+With --scratch the change is applied to a scratch worktree of /repo instead and the check builds against that
+(VERIF_REPO_OVERRIDE), so that /repo stays untouched while other checks are running from it.
+usage: run_seeded.py [seeded-dir-name ...] [--checks=C05,C06] [--scratch]"""
 import json, os, subprocess, sys, time
 
 ENV = dict(os.environ, GOFLAGS='-mod=mod', GOPROXY='off', GOSUMDB='off', GOTOOLCHAIN='local')
@@ -17,6 +19,19 @@ def main():
             checks_override = a.split('=', 1)[1].split(',')
     names = args or sorted(os.listdir('/verif/seeded'))
     assert sh('git -C /repo status --porcelain').stdout.strip() == '', '/repo has uncommitted changes'
+    repo = '/repo'
+    if '--scratch' in sys.argv:
+        repo = f'/tmp/seedrun-{os.getpid()}'
+        assert sh(f'git -C /repo worktree add -q --detach {repo} HEAD').returncode == 0
+        ENV['VERIF_REPO_OVERRIDE'] = repo
+    try:
+        run(names, checks_override, repo)
+    finally:
+        if repo != '/repo':
+            sh(f'git -C /repo worktree remove --force {repo}')
+    assert sh('git -C /repo status --porcelain').stdout.strip() == ''
+
+def run(names, checks_override, repo):
     results = {}
     for n in names:
         d = f'/verif/seeded/{n}'
@@ -24,7 +39,7 @@ def main():
             continue
         meta = json.load(open(d + '/meta.json'))
         checks = checks_override or meta.get('checks') or [meta['property']]
-        r = sh(f'git -C /repo apply {d}/patch.diff')
+        r = sh(f'git -C {repo} apply {d}/patch.diff')
         if r.returncode != 0:
             results[n] = {'error': 'patch does not apply: ' + r.stderr[:200]}
             print(n, results[n]); continue
@@ -37,12 +52,11 @@ def main():
                 out[c] = {'exit': p.returncode, 'violation': 'VIOLATION property=' in p.stdout, 'signatures': sigs[:4], 'wall_s': round(time.time() - t0, 1)}
             results[n] = out
         finally:
-            sh('git -C /repo checkout -- .')
+            sh(f'git -C {repo} checkout -- .')
         caught = any(v['violation'] for v in out.values())
         print(n, 'CAUGHT' if caught else 'MISSED', json.dumps(out)[:400], flush=True)
         meta['detection'] = out
         meta['caught'] = caught
         json.dump(meta, open(d + '/meta.json', 'w'), indent=1)
-    assert sh('git -C /repo status --porcelain').stdout.strip() == ''
 
 main()
